@@ -288,8 +288,29 @@ func (w *World) checkView(what string, t0 int64, pts map[string]string, rks map[
 			for _, k := range groupKeys(g) {
 				desc = append(desc, k+"="+pts[k])
 			}
-			w.fail("batch-not-atomic", "%s: group %d seen partially applied in one consistent view: %s rangekey=%q (every batch rewrites all %d keys and the range key of a group with one token)",
-				what, g, strings.Join(desc, " "), rks[g], keysPerGroup)
+			// diagnostics: what the harness knows about the batches involved, and
+			// what a fresh iterator shows a moment later
+			var info []string
+			w.mu.Lock()
+			for tok := range toks {
+				if b := w.batches[tok]; b != nil {
+					info = append(info, fmt.Sprintf("%s{seq=%d count=%d size=%d large=%v call=%d ret=%d}", tok, b.seq, b.count, b.size, b.large, b.call, b.ret))
+				}
+			}
+			w.mu.Unlock()
+			sort.Strings(info)
+			second := "?"
+			if it, err := w.DB.NewIter(&pebble.IterOptions{KeyTypes: pebble.IterKeyTypePointsAndRanges}); err == nil {
+				p2, r2, _ := w.readAll(it, false)
+				it.Close()
+				var d2 []string
+				for _, k := range groupKeys(g) {
+					d2 = append(d2, k+"="+p2[k])
+				}
+				second = strings.Join(d2, " ") + " rangekey=" + r2[g]
+			}
+			w.fail("batch-not-atomic", "%s: group %d seen partially applied in one consistent view (t0=%d t1=%d): %s rangekey=%q (every batch rewrites all %d keys and the range key of a group with one token) | batches: %s | a fresh iterator afterwards: %s | %s",
+				what, g, t0, t1, strings.Join(desc, " "), rks[g], keysPerGroup, strings.Join(info, " "), second, w.DB.DebugString())
 			return
 		}
 		tok := firstKey(toks)
